@@ -157,6 +157,10 @@ pub fn shrink_case(c: &Case, still_fails: &mut dyn FnMut(&Case) -> bool) -> Case
 
 pub struct RunCfg { pub seed: u64, pub cases: u64, pub threads: usize, pub driver: String, pub thorough: bool, pub max_shrink: usize }
 
+/// oracles are written for well-formed cases; a shrunk case may not be one — a panicking oracle then counts as "does not fail"
+fn safe_oracle(p: &TreeProp, c: &Case, o: &[Out]) -> Vec<Finding> { catch(|| (p.oracle)(c, o)).unwrap_or_default() }
+fn safe_project(p: &TreeProp, c: &Case, o: &[Out]) -> Vec<String> { catch(|| (p.project)(c, o)).unwrap_or_else(|_| vec!["<projection panicked>".into()]) }
+
 fn run_worker(p: &TreeProp, cfg: &RunCfg, w: usize, n: u64, corpus: &[Case]) -> RunResult {
   let mut rng = Rng::new(cfg.seed.wrapping_add(0x1000 * w as u64 + 17));
   let mut d = Driver::spawn(&cfg.driver);
@@ -194,9 +198,9 @@ fn run_worker(p: &TreeProp, cfg: &RunCfg, w: usize, n: u64, corpus: &[Case]) -> 
       let key = format!("oracle:{}", f.clause);
       let (c2, f2) = if shrunk_clauses.len() < cfg.max_shrink && shrunk_clauses.insert(key) {
         let clause = f.clause.clone();
-        let c2 = shrink_case(&case, &mut |c| { let o = run_case_impl(c); (p.oracle)(c, &o).iter().any(|x| x.clause == clause && (p.known)(c, x, &o).is_none()) });
+        let c2 = shrink_case(&case, &mut |c| { let o = run_case_impl(c); safe_oracle(p, c, &o).iter().any(|x| x.clause == clause && (p.known)(c, x, &o).is_none()) });
         let o2 = run_case_impl(&c2);
-        let f2 = (p.oracle)(&c2, &o2).into_iter().find(|x| x.clause == clause && (p.known)(&c2, x, &o2).is_none()).unwrap_or(f.clone());
+        let f2 = safe_oracle(p, &c2, &o2).into_iter().find(|x| x.clause == clause && (p.known)(&c2, x, &o2).is_none()).unwrap_or(f.clone());
         (c2, f2)
       } else { (case.clone(), f.clone()) };
       if r.failures.iter().filter(|x| x.kind == "oracle" && x.known.is_none() && x.clause == f2.clause).count() < 5 {
@@ -212,8 +216,8 @@ fn run_worker(p: &TreeProp, cfg: &RunCfg, w: usize, n: u64, corpus: &[Case]) -> 
     if corr {
       r.corr_failures += 1;
       if shrunk_clauses.len() < cfg.max_shrink && shrunk_clauses.insert("corr".into()) {
-        let c2 = shrink_case(&case, &mut |c| { let a = run_case_impl(c); let b = run_case_model(&mut d, c); !b.iter().any(|o| matches!(o, Out::Bad(_))) && (p.project)(c, &a) != (p.project)(c, &b) });
-        let a = (p.project)(&c2, &run_case_impl(&c2)); let b = (p.project)(&c2, &run_case_model(&mut d, &c2));
+        let c2 = shrink_case(&case, &mut |c| { let a = run_case_impl(c); let b = run_case_model(&mut d, c); !b.iter().any(|o| matches!(o, Out::Bad(_))) && { let (x, y) = (safe_project(p, c, &a), safe_project(p, c, &b)); x != y && !x.iter().any(|s| s.contains("panicked")) } });
+        let a = safe_project(p, &c2, &run_case_impl(&c2)); let b = safe_project(p, &c2, &run_case_model(&mut d, &c2));
         let idx = a.iter().zip(b.iter()).position(|(x, y)| x != y).unwrap_or(a.len().min(b.len()));
         let detail = format!("projection item {idx}: impl={:?} model={:?}", a.get(idx), b.get(idx));
         r.failures.push(Failure { kind: "corr", clause: "correspondence".into(), detail, case: c2, known: None });
